@@ -53,6 +53,10 @@ SPECS = [
     {'name': 'D', 'type': 'LREAL', 'length': 3, 'address': None},
     {'name': 'Scalar', 'type': 'DINT', 'length': 1, 'address': None},
     {'name': 'Huge', 'type': 'DINT', 'length': 17000, 'address': None},       # more than 64 KiB: fragment offsets beyond 16 bits
+    # dotted names sharing leading components (pylogix sends one symbolic segment per component)
+    {'name': 'Motor.Speed', 'type': 'DINT', 'length': 1, 'address': None},
+    {'name': 'Motor.Amps', 'type': 'REAL', 'length': 4, 'address': None},
+    {'name': 'Motor.Cfg.Max', 'type': 'INT', 'length': 2, 'address': None},
 ] + [   # one scalar tag of every type both sides support (scalars go through the simulator's own default/assignment path)
     {'name': 'S_' + t, 'type': t, 'length': 1, 'address': None}
     for t in ('BOOL', 'SINT', 'INT', 'LINT', 'USINT', 'UINT', 'UDINT', 'ULINT', 'REAL', 'LREAL')
@@ -89,7 +93,7 @@ def op(draw):
             o['values'] = [base + i for i in range(n)]
         return o
     if kind == 'unknown':
-        return {'kind': kind, 'tag': draw(st.sampled_from(['Nope', 'A_', 'Bigg']))}
+        return {'kind': kind, 'tag': draw(st.sampled_from(['Nope', 'A_', 'Bigg', 'Motor.Nope', 'Motor.Cfg.Min', 'Motor']))}
     s = draw(st.sampled_from([x for x in SPECS if x['name'] not in ('Big', 'Huge')]))
     L = s['length']
     if kind == 'multi':
